@@ -2341,6 +2341,288 @@ Proof.
 Qed.
 
 (* ------------------------------------------------------------------ *)
+(* 3 (continued): through Raft::step, an election is started only by hup (after its scan)
+   or by a pre-candidate that has just won the pre-vote *)
+
+Definition st (r r' : raft) : Prop := r_state r' = r_state r /\ r_term r' = r_term r.
+
+Lemma fr_st r r' : fr r r' -> st r r'.
+Proof. intros (A & _ & _ & _ & _ & _ & B). split; assumption. Qed.
+
+Lemma st_refl r : st r r. Proof. split; reflexivity. Qed.
+Lemma st_trans a b c : st a b -> st b c -> st a c.
+Proof. unfold st. intuition congruence. Qed.
+
+Lemma handle_append_entries_st r m r' : handle_append_entries r m = Ok r' -> st r r'.
+Proof.
+  unfold handle_append_entries. intros H.
+  destruct (negb (r_pending_request_snapshot r =? INVALID_INDEX)).
+  { apply fr_st. eapply send_request_snapshot_fr; exact H. }
+  destruct (m_index m <? committed (r_log r)). { apply fr_st. eapply send_fr; exact H. }
+  inv_bind H. destruct x as [l' res]. destruct res as [[a b]|].
+  - apply send_fr, fr_st in H. exact H.
+  - inv_bind H. destruct x as [hi [ht|]]; [|discriminate]. apply send_fr, fr_st in H. exact H.
+Qed.
+
+Lemma handle_heartbeat_st r m r' : handle_heartbeat r m = Ok r' -> st r r'.
+Proof.
+  unfold handle_heartbeat. intros H. inv_bind H.
+  match type of H with (if ?c then _ else _) = _ => destruct c end.
+  - apply send_request_snapshot_fr, fr_st in H. exact H.
+  - apply send_fr, fr_st in H. exact H.
+Qed.
+
+Lemma restore_st r s r' b : restore r s = Ok (r', b) -> st r r' \/ r_state r' = Follower.
+Proof.
+  unfold restore. intros H.
+  destruct (s_index s <? committed (r_log r)); [inversion H; left; apply st_refl|].
+  destruct (negb (role_eqb (r_state r) Follower)).
+  { inv_bind H. inversion H; subst. right. apply become_follower_fields in Hx. apply Hx. }
+  match type of H with (if ?c then _ else _) = _ => destruct c end; [inversion H; left; apply st_refl|].
+  inv_bind H.
+  match type of H with (if ?c then _ else _) = _ => destruct c end.
+  { inv_bind H. inversion H; subst. left. split; reflexivity. }
+  inv_bind H.
+  destruct (ConfChange.restore empty_tracker (s_cs s)) as [[c' ids']|e]; [|discriminate].
+  inv_bind H. destruct x1 as [r1 new_cs].
+  destruct (negb (conf_state_eq (s_cs s) new_cs)); [discriminate|].
+  destruct (get_pr r1 (r_id r1)); [|discriminate].
+  destruct (next_idx p =? 0); [discriminate|]. inversion H; subst.
+  apply post_conf_change_spec in Hx1. destruct Hx1 as [_ Hf]. apply fr_st in Hf. left. exact Hf.
+Qed.
+
+Lemma handle_snapshot_st r m r' : handle_snapshot r m = Ok r' -> st r r' \/ r_state r' = Follower.
+Proof.
+  unfold handle_snapshot. intros H. inv_bind H. destruct x as [r1 ok].
+  apply restore_st in Hx.
+  assert (Hs : st r1 r') by (destruct ok; apply send_fr, fr_st in H; exact H).
+  destruct Hx as [Hx|Hx]; [left; eapply st_trans; eassumption|right].
+  destruct Hs as [A _]. congruence.
+Qed.
+
+Lemma maybe_commit_by_vote_st r m r' :
+  maybe_commit_by_vote r m = Ok r' -> st r r' \/ r_state r' = Follower.
+Proof.
+  intros H. apply maybe_commit_by_vote_spec in H.
+  destruct H as [-> |(l' & b & _ & _ & _ & _ & _ & [-> |(_ & _ & _ & Hbf)])].
+  - left; apply st_refl.
+  - left; split; reflexivity.
+  - right. apply become_follower_fields in Hbf. apply Hbf.
+Qed.
+
+Definition not_cand (r : raft) : Prop := r_state r = Leader \/ r_state r = Follower.
+
+Lemma poll_gen_state rc r from v r' res :
+  poll_gen rc r from v = Ok (r', res) ->
+  st r r' \/ not_cand r' \/
+  (res = VoteWon /\ r_state r = PreCandidate /\
+   exists r0, st r r0 /\ rc r0 = Ok r').
+Proof.
+  unfold poll_gen. intros H.
+  set (r0 := r <| r_prs := (r_prs r) <| t_votes := Quorum.record_vote (t_votes (r_prs r)) from v |> |>) in *.
+  destruct (Quorum.tracker_vote_result _ _ _).
+  - inversion H; subst. left. split; reflexivity.
+  - inv_bind H. inversion H; subst. right; left. right. apply become_follower_fields in Hx. apply Hx.
+  - destruct (role_eqb (r_state r0) PreCandidate) eqn:E.
+    + inv_bind H. inversion H; subst. right; right. split; [reflexivity|].
+      split; [change (r_state r0) with (r_state r) in E; destruct (r_state r); try discriminate; reflexivity|].
+      exists r0. split; [split; reflexivity|exact Hx].
+    + inv_bind H. inv_bind H. inversion H; subst. right; left. left.
+      apply become_leader_spec in Hx. destruct Hx as (Hl & _). apply bcast_append_fr in Hx0.
+      destruct Hx0 as (E0 & _). congruence.
+Qed.
+
+Lemma campaign_real_state tr r r' :
+  campaign_real tr r = Ok r' -> r_state r' = Candidate \/ not_cand r'.
+Proof.
+  unfold campaign_real. intros H. inv_bind H. apply become_candidate_fields in Hx.
+  destruct Hx as (Hs & _). inv_bind H. destruct x0 as [r2 res].
+  apply poll_gen_state in Hx. 
+  assert (H2 : r_state r2 = Candidate \/ not_cand r2).
+  { destruct Hx as [[A _]|[A|(_ & A & _)]]; [left; congruence|right; exact A|congruence]. }
+  destruct res.
+  - inv_bind H. apply send_vote_requests_fr in H. destruct H as (E & _). unfold not_cand. rewrite E. exact H2.
+  - inv_bind H. apply send_vote_requests_fr in H. destruct H as (E & _). unfold not_cand. rewrite E. exact H2.
+  - inversion H; subst. exact H2.
+Qed.
+
+Lemma step_leader_state r m r' c :
+  step_leader r m = Ok (r', c) -> r_state r = Leader -> not_cand r'.
+Proof.
+  intros H Hs. destruct (m_type m =? MsgPropose) eqn:Ep.
+  - apply N.eqb_eq in Ep. apply step_leader_propose_spec in H; [|exact Ep].
+    destruct H as [(_ & _ & E & _)|(_ & r1 & ents & l' & z & r2 & F & _ & Hc & _ & Hf)].
+    + left. congruence.
+    + apply filter_frame_fields in F. destruct F as (_ & _ & E1 & _). destruct Hc as (E2 & _).
+      destruct Hf as (E3 & _). left. congruence.
+  - destruct (step_leader_other _ _ _ _ Ep H) as [(E & _)|E]; [left; congruence|right; exact E].
+Qed.
+
+(* the term-handling prologue of step, as a relation *)
+Definition prologue (r : raft) (m : msg) (r1 : raft) : Prop :=
+  r1 = r \/ exists l, r_term r < m_term m /\ become_follower r (m_term m) l = Ok r1.
+
+Theorem step_campaign_guard r m r' c :
+  step r m = Ok (r', c) ->
+  (r_state r' = Candidate \/ r_state r' = PreCandidate) ->
+  (* nothing started: same role, same term *)
+  st r r' \/
+  (* a pre-candidate won the pre-vote *)
+  (r_state r = PreCandidate /\ r_state r' = Candidate /\ m_type m = MsgRequestPreVoteResponse) \/
+  (* hup campaigned, after its scan answered false *)
+  (exists r1 tl, prologue r m r1 /\ is_leader r1 = false /\
+     has_unapplied_conf_changes r1 (hup_low r1) (committed (r_log r1) + 1) = Ok false /\
+     hup r1 tl = Ok r' /\ (m_type m = MsgHup \/ m_type m = MsgTimeoutNow)).
+Proof.
+  intros H Hc. unfold step in H. inv_bind H.
+  assert (Hpre : match x with
+                 | inl (r1, _) => st r r1
+                 | inr r1 => prologue r m r1
+                 end).
+  { clear H. destruct (m_term m =? 0); [inversion Hx; left; reflexivity|].
+    destruct (r_term r <? m_term m) eqn:Elt.
+    - match type of Hx with (if ?c then _ else _) = _ => destruct c end; [inversion Hx; apply st_refl|].
+      match type of Hx with (if ?c then _ else _) = _ => destruct c end; [inversion Hx; left; reflexivity|].
+      match type of Hx with (if ?c then _ else _) = _ => destruct c end;
+        inv_bind Hx; inversion Hx; subst; right; eexists; (split; [lia|eassumption]).
+    - destruct (m_term m <? r_term r); [|inversion Hx; left; reflexivity].
+      match type of Hx with (if ?c then _ else _) = _ => destruct c end.
+      + inv_bind Hx. inversion Hx; subst. apply fr_st. eapply send_fr; eassumption.
+      + match type of Hx with (if ?c then _ else _) = _ => destruct c end.
+        * inv_bind Hx. inversion Hx; subst. apply fr_st. eapply send_fr; eassumption.
+        * inversion Hx; subst. apply st_refl. }
+  destruct x as [[r1 c1]|r1]. { inversion H; subst. left. exact Hpre. }
+  clear Hx.
+  (* a follower produced by the prologue cannot be the (pre-)candidate r' unless hup ran *)
+  assert (Hst1 : st r1 r' -> st r r').
+  { intros Hs. destruct Hpre as [-> |(l & _ & Hbf)]; [exact Hs|].
+    apply become_follower_fields in Hbf. destruct Hbf as (E & _). destruct Hs as [E' _].
+    destruct Hc; congruence. }
+  assert (Hnc : forall P : Prop, not_cand r' -> P).
+  { intros P [E|E]; destruct Hc; congruence. }
+  assert (Hhup : forall tl, hup r1 tl = Ok r' -> (m_type m = MsgHup \/ m_type m = MsgTimeoutNow) ->
+     st r r' \/
+     (r_state r = PreCandidate /\ r_state r' = Candidate /\ m_type m = MsgRequestPreVoteResponse) \/
+     (exists r1 tl, prologue r m r1 /\ is_leader r1 = false /\
+        has_unapplied_conf_changes r1 (hup_low r1) (committed (r_log r1) + 1) = Ok false /\
+        hup r1 tl = Ok r' /\ (m_type m = MsgHup \/ m_type m = MsgTimeoutNow))).
+  { intros tl Hh Hty. pose proof (hup_spec _ _ _ Hh) as [[_ ->]|[(_ & _ & ->)|(Hl & Hsc & _)]].
+    - left. apply Hst1, st_refl.
+    - left. apply Hst1, st_refl.
+    - right; right. exists r1, tl. auto. }
+  destruct (m_type m =? MsgHup) eqn:Ehup.
+  { inv_bind H. inversion H; subst. apply N.eqb_eq in Ehup. eapply Hhup; eauto. }
+  match type of H with (if ?c then _ else _) = _ => destruct c end.
+  { inv_bind H. inv_bind H.
+    match type of H with (if ?c then _ else _) = _ => destruct c end.
+    - inv_bind H. apply send_fr, fr_st in Hx1. left. apply Hst1.
+      destruct (m_type m =? MsgRequestVote); inversion H; subst; [|exact Hx1].
+      eapply st_trans; [exact Hx1|]. split; reflexivity.
+    - inv_bind H. inv_bind H. inv_bind H. inversion H; subst. apply send_fr, fr_st in Hx2.
+      apply maybe_commit_by_vote_st in Hx3. destruct Hx3 as [Hs|Hf].
+      + left. apply Hst1. eapply st_trans; eassumption.
+      + apply Hnc. right; exact Hf. }
+  destruct (r_state r1) eqn:Es.
+  - (* follower *)
+    unfold step_follower in H.
+    assert (Hsame : forall rr, st r1 rr -> Ok (rr, E_OK) = Ok (r', c) ->
+               st r r' \/
+     (r_state r = PreCandidate /\ r_state r' = Candidate /\ m_type m = MsgRequestPreVoteResponse) \/
+     (exists r1 tl, prologue r m r1 /\ is_leader r1 = false /\
+        has_unapplied_conf_changes r1 (hup_low r1) (committed (r_log r1) + 1) = Ok false /\
+        hup r1 tl = Ok r' /\ (m_type m = MsgHup \/ m_type m = MsgTimeoutNow))).
+    { intros rr Hs E. inversion E; subst. left. apply Hst1. exact Hs. }
+    destruct (m_type m =? MsgPropose).
+    { destruct (r_leader_id r1 =? INVALID_ID); [inversion H; subst; left; apply Hst1, st_refl|].
+      destruct (r_disable_proposal_forwarding r1); [inversion H; subst; left; apply Hst1, st_refl|].
+      inv_bind H. eapply Hsame; [|exact H]. apply fr_st. eapply send_fr; eassumption. }
+    destruct (m_type m =? MsgAppend).
+    { inv_bind H. apply handle_append_entries_st in Hx. eapply Hsame; [|exact H].
+      destruct Hx as [A B]. split; [exact A|exact B]. }
+    destruct (m_type m =? MsgHeartbeat).
+    { inv_bind H. apply handle_heartbeat_st in Hx. eapply Hsame; [|exact H].
+      destruct Hx as [A B]. split; [exact A|exact B]. }
+    destruct (m_type m =? MsgSnapshot).
+    { inv_bind H. apply handle_snapshot_st in Hx. destruct Hx as [[A B]|Hf].
+      - eapply Hsame; [|exact H]. split; [exact A|exact B].
+      - inversion H; subst. apply Hnc. right; exact Hf. }
+    destruct (m_type m =? MsgTransferLeader).
+    { destruct (r_leader_id r1 =? INVALID_ID); [inversion H; subst; left; apply Hst1, st_refl|].
+      inv_bind H. eapply Hsame; [|exact H]. apply fr_st. eapply send_fr; eassumption. }
+    destruct (m_type m =? MsgTimeoutNow) eqn:Eto.
+    { destruct (r_promotable r1); [|inversion H; subst; left; apply Hst1, st_refl].
+      inv_bind H. inversion H; subst. apply N.eqb_eq in Eto. eapply Hhup; eauto. }
+    destruct (m_type m =? MsgReadIndex).
+    { destruct (r_leader_id r1 =? INVALID_ID); [inversion H; subst; left; apply Hst1, st_refl|].
+      inv_bind H. eapply Hsame; [|exact H]. apply fr_st. eapply send_fr; eassumption. }
+    destruct (m_type m =? MsgReadIndexResp).
+    { destruct (m_entries m) as [|e [|e2 rest]]; try (inversion H; subst; left; apply Hst1, st_refl).
+      inv_bind H. inversion H; subst. left. apply Hst1. split; reflexivity. }
+    inversion H; subst. left. apply Hst1, st_refl.
+  - (* candidate *)
+    assert (Er : r1 = r).
+    { destruct Hpre as [E|(l & _ & Hbf)]; [exact E|].
+      apply become_follower_fields in Hbf. destruct Hbf as (E & _). congruence. }
+    subst r1. unfold step_candidate in H.
+    destruct (m_type m =? MsgPropose). { inversion H; subst. left. apply st_refl. }
+    match type of H with (if ?c then _ else _) = _ => destruct c end.
+    { destruct (negb (r_term r =? m_term m)); [discriminate|].
+      inv_bind H. apply become_follower_fields in Hx. destruct Hx as (Hf & _).
+      inv_bind H. inversion H; subst. apply Hnc. right.
+      destruct (m_type m =? MsgAppend).
+      - apply handle_append_entries_state in Hx. congruence.
+      - destruct (m_type m =? MsgHeartbeat).
+        + apply handle_heartbeat_state in Hx. congruence.
+        + apply handle_snapshot_state in Hx. destruct Hx; congruence. }
+    match type of H with (if ?c then _ else _) = _ => destruct c end.
+    2:{ inversion H; subst. left. apply st_refl. }
+    match type of H with (if ?c then _ else _) = _ => destruct c end.
+    { inversion H; subst. left. apply st_refl. }
+    inv_bind H. destruct x as [r2 res]. inv_bind H. inversion H; subst. cbn [fst] in Hx0.
+    apply maybe_commit_by_vote_st in Hx0.
+    destruct Hx0 as [Hs2|Hf]; [|apply Hnc; right; exact Hf].
+    unfold poll in Hx. apply poll_gen_state in Hx.
+    destruct Hx as [Hs1|[Hn|(_ & Ep & _)]].
+    + left. eapply st_trans; eassumption.
+    + apply Hnc. destruct Hs2 as [E _]. destruct Hn as [E'|E']; [left|right]; congruence.
+    + congruence.
+  - (* leader *)
+    apply step_leader_state in H; [|exact Es]. apply Hnc. exact H.
+  - (* pre-candidate *)
+    assert (Er : r1 = r).
+    { destruct Hpre as [E|(l & _ & Hbf)]; [exact E|].
+      apply become_follower_fields in Hbf. destruct Hbf as (E & _). congruence. }
+    subst r1. unfold step_candidate in H.
+    destruct (m_type m =? MsgPropose). { inversion H; subst. left. apply st_refl. }
+    match type of H with (if ?c then _ else _) = _ => destruct c end.
+    { destruct (negb (r_term r =? m_term m)); [discriminate|].
+      inv_bind H. apply become_follower_fields in Hx. destruct Hx as (Hf & _).
+      inv_bind H. inversion H; subst. apply Hnc. right.
+      destruct (m_type m =? MsgAppend).
+      - apply handle_append_entries_state in Hx. congruence.
+      - destruct (m_type m =? MsgHeartbeat).
+        + apply handle_heartbeat_state in Hx. congruence.
+        + apply handle_snapshot_state in Hx. destruct Hx; congruence. }
+    match type of H with (if ?c then _ else _) = _ => destruct c end.
+    2:{ inversion H; subst. left. apply st_refl. }
+    rewrite Es in H. cbn [role_eqb andb orb] in H.
+    destruct (m_type m =? MsgRequestPreVoteResponse) eqn:Ety; cbn [negb] in H.
+    2:{ inversion H; subst. left. apply st_refl. }
+    apply N.eqb_eq in Ety.
+    inv_bind H. destruct x as [r2 res]. inv_bind H. inversion H; subst. cbn [fst] in Hx0.
+    apply maybe_commit_by_vote_st in Hx0.
+    destruct Hx0 as [Hs2|Hf]; [|apply Hnc; right; exact Hf].
+    unfold poll in Hx. apply poll_gen_state in Hx.
+    destruct Hx as [Hs1|[Hn|(_ & _ & r0 & _ & Hcr)]].
+    + left. eapply st_trans; eassumption.
+    + apply Hnc. destruct Hs2 as [E _]. destruct Hn as [E'|E']; [left|right]; congruence.
+    + apply campaign_real_state in Hcr. destruct Hs2 as [E _].
+      destruct Hcr as [Ec|Hn].
+      * right; left. split; [exact Es|]. split; [congruence|exact Ety].
+      * apply Hnc. destruct Hn as [E'|E']; [left|right]; congruence.
+Qed.
+
+(* ------------------------------------------------------------------ *)
 (* 1 (assembled): the complete characterisation of the proposal filter *)
 Theorem propose_filter r ents info i r' ents' ok :
   filter_conf_changes r ents info i = (r', ents', ok) ->
